@@ -131,7 +131,24 @@ def execute(ctx, case: dict) -> None:
     if case["k"] == "pair":
         C03.execute(ctx, case)
         return
-    acl = Acl(case["text"], platform=case["platform"], max_ncwb=20, group_by=case.get("group_by", ""))
+    acl = Acl(case["text"], platform=case["platform"], max_ncwb=20, group_by=case.get("group_by", ""), **case.get("kwargs", {}))
+    if case.get("handmade_groups") and not case.get("group_by"):
+        # an ACL may hold hand-made AceGroups without group_by: wrap runs of items into groups through the list methods
+        from cisco_acl import AceGroup  # pylint: disable=import-outside-toplevel
+
+        items = list(acl.items)
+        new, pos = [], 0
+        for size in case["handmade_groups"]:
+            chunk = items[pos:pos + abs(size)]
+            pos += abs(size)
+            if not chunk:
+                break
+            if size > 1:
+                new.append(AceGroup(items=chunk, platform=acl.platform, port_nr=acl.port_nr, protocol_nr=acl.protocol_nr))
+            else:
+                new.extend(chunk)
+        new.extend(items[pos:])
+        acl.items[:] = new
     try:
         acl.shading(case.get("skip"))
         acl.shadow_of(case.get("skip"))
@@ -167,7 +184,9 @@ def gen_acl_case(rng, platform):
     text = grammar.acl_header(platform, "X1") + "\n" + "\n".join("  " + ln for ln in lines)
     return {"k": "acl", "platform": platform, "text": text, "group_by": heading,
             "skip": rng.choice([None, None, [], ["addrgroup"], ["nc_wildcard"], ["addrgroup", "nc_wildcard"]]),
-            "more_skips": rng.sample([None, [], ["addrgroup"], ["nc_wildcard"], ["nc_wildcard", "addrgroup"]], rng.randint(0, 3))}
+            "more_skips": rng.sample([None, [], ["addrgroup"], ["nc_wildcard"], ["nc_wildcard", "addrgroup"]], rng.randint(0, 3)),
+            "handmade_groups": [rng.choice([1, 1, 2, 3]) for _ in range(4)] if not heading and rng.random() < 0.3 else [],
+            "kwargs": {"port_nr": rng.random() < 0.5, "protocol_nr": rng.random() < 0.7} if rng.random() < 0.35 else {}}
 
 
 def run(ctx) -> None:
@@ -183,6 +202,8 @@ def run(ctx) -> None:
         if rng.random() < 0.7:
             pair = sc.gen_related_pair(rng, platform, groups=False, small=sc.SMALL if rng.random() < 0.4 else None)
             case = {"k": "pair", "platform": platform, **pair}
+            if rng.random() < 0.35:
+                case["kwargs"] = {"port_nr": rng.random() < 0.5, "protocol_nr": rng.random() < 0.7}
             execute(ctx, case)
             sig = C03._pair_sig(case)
             ans = case.pop("_answer", None)
